@@ -250,7 +250,7 @@ func (a *c13) nonNil(v ssa.Value, at ssa.Instruction, depth int) (bool, string) 
 	case *ssa.Extract:
 		switch t := x.Tuple.(type) {
 		case *ssa.Call:
-			callee := t.Common().StaticCallee()
+			callee := core.Callee(t.Common())
 			if callee == nil || !core.InModule(callee) {
 				return false, "result of a dynamic or foreign call"
 			}
@@ -315,7 +315,7 @@ func (a *c13) nonNil(v ssa.Value, at ssa.Instruction, depth int) (bool, string) 
 			return false, "asserted map used outside the ok edge of its assertion"
 		}
 	case *ssa.Call:
-		callee := x.Common().StaticCallee()
+		callee := core.Callee(x.Common())
 		if callee != nil && core.InModule(callee) && a.summaryNonNilWhen(callee, 0, -1, depth) {
 			return true, "callee always returns a non-nil map"
 		}
@@ -414,7 +414,7 @@ func (a *c13) paramNonNil(x *ssa.Parameter, depth int) (bool, string) {
 				if _, isBuiltin := call.Common.Value.(*ssa.Builtin); isBuiltin {
 					continue
 				}
-				if call.Common.StaticCallee() == nil && !call.Common.IsInvoke() && len(call.Common.Args) == 1 {
+				if core.Callee(call.Common) == nil && !call.Common.IsInvoke() && len(call.Common.Args) == 1 {
 					ss = append(ss, site{call.Common.Args[0], call.Instr})
 				}
 			}
@@ -430,7 +430,11 @@ func (a *c13) paramNonNil(x *ssa.Parameter, depth int) (bool, string) {
 		if s.at == nil {
 			return false, "caller instruction not found"
 		}
-		if ok, why := a.nonNil(s.arg, s.at, depth-1); !ok {
+		d := depth - 1
+		if core.WrapperOf(fn) == s.at.Parent() {
+			d = depth + 1 // the thin wrapper fn is known by only hands its own parameter on: no depth is spent on it
+		}
+		if ok, why := a.nonNil(s.arg, s.at, d); !ok {
 			return false, fmt.Sprintf("caller %s at %s passes a possibly nil map (%s)", core.FuncKey(s.at.Parent()), a.P.InstrPos(s.at), why)
 		}
 	}
@@ -438,7 +442,7 @@ func (a *c13) paramNonNil(x *ssa.Parameter, depth int) (bool, string) {
 }
 
 func (a *c13) instrOf(cc *ssa.CallCommon) ssa.Instruction {
-	for _, fn := range a.P.ModFns {
+	for _, fn := range append(append([]*ssa.Function{}, a.P.ModFns...), a.P.Wrappers()...) {
 		for _, b := range fn.Blocks {
 			for _, in := range b.Instrs {
 				if ci, ok := in.(ssa.CallInstruction); ok && ci.Common() == cc {
@@ -454,7 +458,7 @@ func (a *c13) instrOf(cc *ssa.CallCommon) ssa.Instruction {
 // upgrades table.
 func (a *c13) usedAsStep(fn *ssa.Function) bool {
 	for _, s := range a.steps() {
-		if s == fn {
+		if s == fn || core.SameFn(s, fn) && core.WrapperOf(fn) != s {
 			return true
 		}
 	}
@@ -491,7 +495,7 @@ func (a *c13) steps() []*ssa.Function {
 			out = append(out, f)
 			if strings.HasSuffix(f.Name(), "$bound") {
 				for _, call := range core.Calls(f) {
-					if sc := call.Common.StaticCallee(); sc != nil {
+					if sc := core.Callee(call.Common); sc != nil {
 						out = append(out, sc)
 					}
 				}
@@ -886,7 +890,7 @@ func (a *c13) table() {
 			f, _ := core.FnValue(st.Val)
 			if f != nil && strings.HasSuffix(f.Name(), "$bound") {
 				for _, call := range core.Calls(f) {
-					if sc := call.Common.StaticCallee(); sc != nil {
+					if sc := core.Callee(call.Common); sc != nil {
 						f = sc
 					}
 				}
@@ -1015,7 +1019,7 @@ func (a *c13) roundTripStable() {
 			}
 			if strings.HasSuffix(f.Name(), "$bound") || strings.HasSuffix(f.Name(), "$thunk") {
 				for _, call := range core.Calls(f) {
-					if sc := call.Common.StaticCallee(); sc != nil {
+					if sc := core.Callee(call.Common); sc != nil {
 						f = sc
 						break
 					}
@@ -1060,7 +1064,7 @@ func (a *c13) roundTripStable() {
 			seen[fn] = true
 			fns = append(fns, fn)
 			for _, call := range core.Calls(fn) {
-				walk(call.Common.StaticCallee())
+				walk(core.Callee(call.Common))
 			}
 			for _, an := range fn.AnonFuncs {
 				walk(an)
@@ -1089,7 +1093,7 @@ func (a *c13) roundTripStable() {
 				return "*"
 			case *ssa.Extract:
 				if call, ok := x.Tuple.(*ssa.Call); ok && x.Index == 0 {
-					if callee := call.Call.StaticCallee(); callee != nil {
+					if callee := core.Callee(&call.Call); callee != nil {
 						if name, _, ok := isHelper(callee); ok && name == "fieldVal" {
 							if k, ok := core.ConstString(call.Call.Args[1]); ok {
 								return sectionOf(call.Call.Args[0], depth+1) + "/" + k
@@ -1205,7 +1209,7 @@ func (a *c13) roundTripStable() {
 							}
 						}
 					case *ssa.Call:
-						callee := x.Call.StaticCallee()
+						callee := core.Callee(&x.Call)
 						if callee == nil {
 							continue
 						}
